@@ -52,7 +52,7 @@ def world(z1=None, z2=None, edits=()):
          'B': pb.Shot(W2, pb.Ammo(dmB, U.FPS(2000)), look_angle=U.Degree(10), atmo=atm,
                       winds=[pb.Wind(U.MPH(5), U.Degree(45), U.Yard(ub[0])), pb.Wind(U.MPH(15), U.Degree(200), U.Yard(ub[1]))]),
          'C': pb.Shot(W1, pb.Ammo(dmA, U.FPS(100)), relative_angle=U.Degree(30)),    # raises RangeError
-         'D': pb.Shot(W1, pb.Ammo(dmB, U.FPS(2400))),
+         'D': pb.Shot(W1, pb.Ammo(dmB, U.FPS(2400)), winds=[pb.Wind(U.MPH(20), U.Degree(90))] if 'defwindD' in edits else None),
          'E': pb.Shot(W2, pb.Ammo(dmA, U.FPS(30)), atmo=atm),                         # below the minimum velocity: cannot be zeroed
          'F': pb.Shot(W2, ammoA, atmo=atm, winds=windsA),                            # shares Ammo and the winds list with A
          'G': pb.Shot(W1, pb.Ammo(dmC, U.FPS(2600 if 'mvG' not in edits else 2400))),  # bullet without dimensions from the twisted barrel W1
@@ -102,6 +102,10 @@ def run(op, w):
                 w['S']['G'].ammo.mv = U.FPS(2400)
             elif op[1] == 'bcA':
                 w['dmA'].BC = 0.3
+            elif op[1] == 'defwindD':
+                dw = w['S']['D'].winds[0]          # the wind the library created for a shot given none
+                dw.velocity = U.MPH(20)
+                dw.direction_from = U.Degree(90)
             w['edits'].add(op[1])
             return ['ok', op[1]]
         if kind == 'new_calc':
@@ -131,7 +135,7 @@ def all_ops():
     ops += [[kind, 'fresh', s] for kind in ('zero', 'fire', 'firex', 'danger') for s in 'ACG']
     ops += [['zerofar', k, 'E'] for k in ('K0', 'K1', 'fresh')]
     ops += [['new_calc', 'K0'], ['new_calc', 'K1'], ['new_multibc'], ['new_multibc_from', 'A'], ['new_multibc_from', 'B'], ['new_atmo'], ['new_shot', 'D'],
-            ['edit', 'swapB'], ['edit', 'appendA'], ['edit', 'mvG'], ['edit', 'bcA']]
+            ['edit', 'swapB'], ['edit', 'appendA'], ['edit', 'mvG'], ['edit', 'bcA'], ['edit', 'defwindD']]
     return ops
 
 
@@ -202,7 +206,7 @@ def transition(w, op, label, swapped_d):
     if op[0] == 'new_shot':
         allowed.add('shot' + op[1])
     if op[0] == 'edit':
-        allowed |= {'shotA', 'shotB', 'shotC', 'shotE', 'shotF', 'shotG', 'shotH', 'dmA'}
+        allowed |= {'shotA', 'shotB', 'shotC', 'shotD', 'shotE', 'shotF', 'shotG', 'shotH', 'dmA'}
     for k in before:
         if before[k] != after.get(k) and k not in allowed:
             out.append(f'{label}: operation {op} changed {k} of the objects passed in')
@@ -219,7 +223,7 @@ def shares(ops):
     """do the ops of a history touch a common object (weapon, ammo, drag model, calculator)?"""
     objs = []
     groups = {'A': {'W1', 'dmA', 'ammoA', 'windsA'}, 'B': {'W2', 'dmB', 'atm'}, 'C': {'W1', 'dmA'}, 'D': {'W1', 'dmB'}, 'E': {'W2', 'dmA', 'atm'},
-              'F': {'W2', 'ammoA', 'dmA', 'atm', 'windsA'}, 'G': {'W1', 'dmC'}, 'H': {'W1', 'dmA'}, 'swapB': {'W2', 'dmB', 'atm'}, 'appendA': {'windsA'}, 'mvG': {'dmC'}, 'bcA': {'dmA'}}
+              'F': {'W2', 'ammoA', 'dmA', 'atm', 'windsA'}, 'G': {'W1', 'dmC'}, 'H': {'W1', 'dmA'}, 'swapB': {'W2', 'dmB', 'atm'}, 'appendA': {'windsA'}, 'mvG': {'dmC'}, 'bcA': {'dmA'}, 'defwindD': {'W1', 'dmB', 'dmA', 'dmC'}}
     for op in ops:
         s = set()
         for x in op[1:]:
@@ -288,7 +292,7 @@ def chain(cell):
 # ---- closure ------------------------------------------------------------------------------------------------------------
 def closure_ops(alpha='small'):
     """sub-alphabet with a finite state space: each weapon is zeroed through one (calculator, shot) pair only"""
-    shots = 'ABCDFH' if alpha == 'small' else 'ABCDFGH'
+    shots = 'ABCDF' if alpha == 'small' else 'ABCDFGH'
     ops = [['zero', 'K0', 'A'], ['zero', 'K1', 'B']]
     ops += [[kind, k, s] for kind in ('fire', 'firex') for k in ('K0', 'K1') for s in shots]
     ops += [['danger', 'K0', 'A'], ['danger', 'K1', 'F'], ['zerofar', 'K0', 'E'], ['new_calc', 'K0'], ['new_multibc_from', 'A'], ['new_shot', 'D']]
